@@ -8,7 +8,7 @@ def number_to_datetime(value):
     # 1900-02-29, so serials up to 59 (1900-02-28) are one day closer.
     offset = 2 if value > 59 else 1
     delta = datetime.timedelta(
-        days=int(value) - offset, seconds=(value % 1) * 24 * 60 * 60)
+        days=int(value) - offset, seconds=float(value % 1) * 24 * 60 * 60)
     return EXCEL_EPOCH + delta
 
 
